@@ -133,3 +133,65 @@ func H19_MulContract() {
 	verif.Assert(verif.And(m >= 0, m <= x, m <= y), "for x, y in [0,1]: 0 <= x*y <= min(x, y) in binary64 round-to-nearest")
 	verif.Reach("end")
 }
+
+// H19_GateVectors: the forwarding gate with the peer's vector imported the way it arrives: peer 1 sends zero to two
+// summary vectors in sequence (each may or may not name the bundle's destination, with an arbitrary predictability in
+// [0,1]; the second may also name another node only). What counts as "advertised" is the most recent vector: a
+// destination it no longer names is advertised with 0. A data bundle is then offered to peer 1 exactly when that value
+// is strictly greater than the predictability the node itself holds for the destination at that moment.
+// Parameters choose which of the values are symbolic binary64 (each costs ~0.5 s per query): quick explores the
+// structure (which vectors name what, in which order) with values from small sets that include ties; thorough makes
+// the node's own and the last advertised value symbolic.
+func H19_GateVectors() {
+	var log []sendRec
+	c, peers := coreWithPeers("prophet", 0, 1, &log)
+	defer c.Close()
+	p := c.routing.(*Prophet)
+	b := dataBundle("dtn://origin/app", "dtn://far/inbox", 0)
+	dst := b.PrimaryBlock.Destination
+	other := bpv7.MustNewEndpointID("dtn://other/")
+	if verif.Bool("ownknown") {
+		if verif.Param("symown", 0) == 1 {
+			p.predictabilities[dst] = unit("own")
+		} else {
+			p.predictabilities[dst] = []float64{0, 0.25, 0.5}[verif.Choose("ownc", 3)]
+		}
+	}
+	if verif.Param("met", 0) == 1 && verif.Bool("met") {
+		// the node has met peer 1 (transitive updates then have an effect)
+		p.predictabilities[peers[0].peer] = unit("ppeer")
+	}
+	adv := float64(0)
+	nvec := verif.Size("vectors", 0, 2)
+	for i := 0; i < nvec; i++ {
+		vec := map[bpv7.EndpointID]float64{}
+		adv = 0
+		last := i == nvec-1 // only the most recent vector carries symbolic values (keeps the floating-point queries few)
+		if verif.Bool(nm("namesdst", i)) {
+			adv = 0.875
+			if last && verif.Param("symadv", 0) == 1 {
+				adv = unit(nm("adv", i))
+			} else if last {
+				adv = []float64{0, 0.25, 1}[verif.Choose(nm("advc", i), 3)]
+			}
+			vec[dst] = adv
+		}
+		if verif.Bool(nm("namesother", i)) {
+			vec[other] = 0.375
+			if last && verif.Param("symother", 0) == 1 {
+				vec[other] = unit(nm("oth", i))
+			}
+		}
+		mb := dataBundle(peers[0].peer.String(), "dtn://this/", uint64(i+1), func(bl *bpv7.BundleBuilder) { bl.Canonical(bpv7.NewProphetBlock(vec)) })
+		p.NotifyNewBundle(NewBundleDescriptorFromBundle(mb, c.store))
+	}
+	for _, v := range p.predictabilities {
+		verif.Assert(isUnit(v), "own predictabilities stay within [0,1] after importing vectors")
+	}
+	bp := NewBundleDescriptorFromBundle(b, c.store)
+	p.NotifyNewBundle(bp)
+	own := p.predictabilities[dst]
+	css, _ := p.SenderForBundle(bp)
+	verif.Assert((len(css) == 1) == (adv > own), "a peer is chosen exactly when the predictability it advertised last for the destination is strictly greater than the node's own")
+	verif.Reach("end")
+}
